@@ -141,7 +141,18 @@ type FuncSpec struct {
 	NoNil    []string
 	PostUpdates []Update // ghost updates evaluated in the post-state (may mention result); applied after `updates`
 	Bridges  []Update // ghost(params) = expr over the CURRENT ghost state at return: proved equal to the declared update, then usable
+	PureParams []string // function-typed parameters whose calls have no effect (checked at every call site)
+	CallAsserts []CallAssert // callassert Callee#n: expr  (proved just before the n-th call of Callee, args as arg0..)
 	Hints    []Clause // proved at every return in the state BEFORE the ghost updates; introduces ground terms
+}
+
+type CallAssert struct {
+	Callee string
+	N      int
+	E      *SExpr
+	Name   string
+	Pos    string
+	bound  bool
 }
 
 type Axiom struct {
@@ -173,7 +184,7 @@ type tok struct {
 var keywords = map[string]bool{
 	"requires": true, "ensures": true, "modifies": true, "updates": true, "loop": true,
 	"func": true, "fun": true, "macro": true, "ghost": true, "axiom": true, "iface": true,
-	"trusted": true, "assume": true, "defaxiom": true, "hint": true, "bridge": true, "postupdates": true, "uses": true, "inv": true, "dec": true, "nonnil": true, "typeinv": true,
+	"trusted": true, "assume": true, "defaxiom": true, "hint": true, "bridge": true, "postupdates": true, "callassert": true, "purefunc": true, "uses": true, "inv": true, "dec": true, "nonnil": true, "typeinv": true,
 }
 
 func lex(src string, line0 int, file string) ([]tok, error) {
@@ -690,6 +701,18 @@ func (p *sparser) parseClauses(fs *FuncSpec) {
 			p.next()
 			lb := p.label()
 			fs.Ensures = append(fs.Ensures, Clause{E: p.expr(), Pos: pos, Name: lb})
+		case "callassert":
+			p.next()
+			lb := p.label()
+			callee := p.funcKey()
+			n := 1
+			if p.isOp("#") {
+				p.next()
+				t := p.next()
+				n = int(t.n)
+			}
+			p.expectOp(":")
+			fs.CallAsserts = append(fs.CallAsserts, CallAssert{Callee: callee, N: n, E: p.expr(), Name: lb, Pos: pos})
 		case "hint":
 			p.next()
 			lb := p.label()
@@ -700,6 +723,16 @@ func (p *sparser) parseClauses(fs *FuncSpec) {
 		case "trusted":
 			p.next()
 			fs.Trusted = true
+		case "purefunc":
+			p.next()
+			for {
+				fs.PureParams = append(fs.PureParams, p.ident())
+				if p.isOp(",") {
+					p.next()
+					continue
+				}
+				break
+			}
 		case "nonnil":
 			p.next()
 			for {
